@@ -2,10 +2,16 @@ import PiqpProofs.Basic
 import PiqpModel.Precond
 import Mathlib.Tactic.Ring
 import Mathlib.Tactic.FieldSimp
+import Mathlib.Tactic.Linarith
+import Mathlib.Algebra.Order.Field.Basic
 
 /-!
 # C15 — preconditioning is an exact change of variables
 -/
+
+set_option linter.unusedSectionVars false
+set_option linter.unusedSimpArgs false
+set_option linter.unusedVariables false
 
 namespace Piqp.C15
 
@@ -119,5 +125,406 @@ theorem unscale_scale_cost (kind : PrecKind) (pre : Precond K n p m) (h : InvCoh
 /-- the preconditioner right after `init` is coherent (all scalings 1) -/
 theorem init_invCoherent (d : Data K n p m) : InvCoherent (Precond.init d) := by
   constructor <;> simp [Precond.init, Vec.const]
+
+
+/-! ## `scale_data` is the reported change of variables; `unscale_data` undoes it -/
+
+@[simp] theorem ofFn_get {α : Type} {q : Nat} (f : Fin q → α) (i : Fin q) : (Vector.ofFn f)[i] = f i := by simp
+@[simp] theorem matOfFn_get {r c : Nat} (f : Fin r → Fin c → K) (i : Fin r) (j : Fin c) : (Mat.ofFn f)[i][j] = f i j := by
+  simp [Mat.ofFn]
+@[simp] theorem vecConst_get {q : Nat} (a : K) (i : Fin q) : (Vec.const q a)[i] = a := by simp [Vec.const]
+@[simp] theorem headMap_get (cnt : Nat) (v : Vec K n) (f : Fin n → K) (i : Fin n) :
+    (headMap cnt v f)[i] = if i.val < cnt then f i else v[i] := by
+  simp only [headMap, ofFn_get]
+
+/-- `d` is `d0` transformed by the scalings recorded in `pre`: the content of "the scaled data are the original data
+    under the change of variables `x = D x̂`, cost factor `c`, row scalings `E_y, E_z, E_lb, E_ub`". Only the stored upper
+    triangle of `P` is constrained. -/
+structure Applied (d0 d : Data K n p m) (pre : Precond K n p m) : Prop where
+  P : ∀ i j : Fin n, i.val ≤ j.val → d.P[i][j] = d0.P[i][j] * pre.c * pre.dx[i] * pre.dx[j]
+  c : ∀ k : Fin n, d.c[k] = d0.c[k] * pre.c * pre.dx[k]
+  AT : ∀ (i : Fin n) (j : Fin p), d.AT[i][j] = pre.dx[i] * d0.AT[i][j] * pre.dy[j]
+  GT : ∀ (i : Fin n) (j : Fin m), d.GT[i][j] = pre.dx[i] * d0.GT[i][j] * pre.dz[j]
+  lbcnt : d.lb.cnt = d0.lb.cnt
+  lbidx : d.lb.idx = d0.lb.idx
+  lbsc : ∀ j : Fin n, j.val < d0.lb.cnt → d.lb.sc[j] = d0.lb.sc[j] * pre.dlb[j] * pre.dx[d0.lb.idx[j]]
+  ubcnt : d.ub.cnt = d0.ub.cnt
+  ubidx : d.ub.idx = d0.ub.idx
+  ubsc : ∀ j : Fin n, j.val < d0.ub.cnt → d.ub.sc[j] = d0.ub.sc[j] * pre.dub[j] * pre.dx[d0.ub.idx[j]]
+
+theorem ruizBody_applied (kind : PrecKind) (sqrtF : K → K) (cs : Consts K) (scaleCost : Bool)
+    (d0 : Data K n p m) (st : RuizState K n p m) (h : Applied d0 st.d st.pre) :
+    Applied d0 (ruizBody kind sqrtF cs scaleCost st).d (ruizBody kind sqrtF cs scaleCost st).pre := by
+  unfold ruizBody
+  cases scaleCost
+  · simp only [Bool.false_eq_true, if_false]
+    refine ⟨?_, ?_, ?_, ?_, h.lbcnt, h.lbidx, ?_, h.ubcnt, h.ubidx, ?_⟩
+    · intro i j hij
+      simp only [scaleP, matOfFn_get, hij, if_true, ofFn_get, h.P i j hij]
+      ring
+    · intro k; simp only [ofFn_get, h.c k]; ring
+    · intro i j; simp only [scaleMat, matOfFn_get, ofFn_get, h.AT i j]; ring
+    · intro i j; simp only [scaleMat, matOfFn_get, ofFn_get, h.GT i j]; ring
+    · intro j hj
+      have hj' : j.val < st.d.lb.cnt := by rw [h.lbcnt]; exact hj
+      simp only [scaleBoxSc, headMap_get, hj', if_true, ofFn_get, h.lbsc j hj, h.lbidx]
+      ring
+    · intro j hj
+      have hj' : j.val < st.d.ub.cnt := by rw [h.ubcnt]; exact hj
+      simp only [scaleBoxSc, headMap_get, hj', if_true, ofFn_get, h.ubsc j hj, h.ubidx]
+      ring
+  · simp only [if_true]
+    refine ⟨?_, ?_, ?_, ?_, h.lbcnt, h.lbidx, ?_, h.ubcnt, h.ubidx, ?_⟩
+    · intro i j hij
+      simp only [scaleAll, scaleP, matOfFn_get, hij, if_true, ofFn_get, h.P i j hij]
+      ring
+    · intro k; simp only [ofFn_get, h.c k]; ring
+    · intro i j; simp only [scaleMat, matOfFn_get, ofFn_get, h.AT i j]; ring
+    · intro i j; simp only [scaleMat, matOfFn_get, ofFn_get, h.GT i j]; ring
+    · intro j hj
+      have hj' : j.val < st.d.lb.cnt := by rw [h.lbcnt]; exact hj
+      simp only [scaleBoxSc, headMap_get, hj', if_true, ofFn_get, h.lbsc j hj, h.lbidx]
+      ring
+    · intro j hj
+      have hj' : j.val < st.d.ub.cnt := by rw [h.ubcnt]; exact hj
+      simp only [scaleBoxSc, headMap_get, hj', if_true, ofFn_get, h.ubsc j hj, h.ubidx]
+      ring
+
+/-- the Ruiz loop, for every iteration budget, every `sqrt`, every constant set, with or without cost scaling -/
+theorem ruizLoop_applied (kind : PrecKind) (sqrtF : K → K) (cs : Consts K) (scaleCost : Bool) (d0 : Data K n p m) :
+    ∀ (fuel : Nat) (st : RuizState K n p m), Applied d0 st.d st.pre →
+      Applied d0 (ruizLoop kind sqrtF cs scaleCost fuel st).d (ruizLoop kind sqrtF cs scaleCost fuel st).pre := by
+  intro fuel
+  induction fuel with
+  | zero => intro st h; exact h
+  | succ fuel ih =>
+    intro st h
+    simp only [ruizLoop]
+    split
+    · exact ih _ (ruizBody_applied kind sqrtF cs scaleCost d0 st h)
+    · exact h
+
+/-- the loop leaves `b`, `h` and the bound values alone -/
+theorem ruizLoop_frame (kind : PrecKind) (sqrtF : K → K) (cs : Consts K) (scaleCost : Bool) :
+    ∀ (fuel : Nat) (st : RuizState K n p m),
+      let r := ruizLoop kind sqrtF cs scaleCost fuel st
+      r.d.b = st.d.b ∧ r.d.h = st.d.h ∧ r.d.lb.val = st.d.lb.val ∧ r.d.ub.val = st.d.ub.val ∧
+      r.pre.nlb = st.pre.nlb ∧ r.pre.nub = st.pre.nub := by
+  intro fuel
+  induction fuel with
+  | zero => intro st; exact ⟨rfl, rfl, rfl, rfl, rfl, rfl⟩
+  | succ fuel ih =>
+    intro st
+    simp only [ruizLoop]
+    split
+    · have h1 := ih (ruizBody kind sqrtF cs scaleCost st)
+      have h2 : (ruizBody kind sqrtF cs scaleCost st).d.b = st.d.b ∧ (ruizBody kind sqrtF cs scaleCost st).d.h = st.d.h ∧
+          (ruizBody kind sqrtF cs scaleCost st).d.lb.val = st.d.lb.val ∧ (ruizBody kind sqrtF cs scaleCost st).d.ub.val = st.d.ub.val ∧
+          (ruizBody kind sqrtF cs scaleCost st).pre.nlb = st.pre.nlb ∧ (ruizBody kind sqrtF cs scaleCost st).pre.nub = st.pre.nub := by
+        unfold ruizBody; cases scaleCost <;> exact ⟨rfl, rfl, rfl, rfl, rfl, rfl⟩
+      obtain ⟨a1, a2, a3, a4, a5, a6⟩ := h1
+      obtain ⟨b1, b2, b3, b4, b5, b6⟩ := h2
+      exact ⟨a1.trans b1, a2.trans b2, a3.trans b3, a4.trans b4, a5.trans b5, a6.trans b6⟩
+    · exact ⟨rfl, rfl, rfl, rfl, rfl, rfl⟩
+
+/-- what `scale_data` returns: `Applied` plus right-hand sides and bound values multiplied by the row scalings, and the
+    preconditioner's record of the box counts in step with the data -/
+structure Scaled (d0 d : Data K n p m) (pre : Precond K n p m) : Prop extends Applied d0 d pre where
+  b : ∀ k : Fin p, d.b[k] = d0.b[k] * pre.dy[k]
+  h : ∀ k : Fin m, d.h[k] = d0.h[k] * pre.dz[k]
+  lbval : ∀ k : Fin n, d.lb.val[k] = if k.val < d0.lb.cnt then d0.lb.val[k] * pre.dlb[k] else d0.lb.val[k]
+  ubval : ∀ k : Fin n, d.ub.val[k] = if k.val < d0.ub.cnt then d0.ub.val[k] * pre.dub[k] else d0.ub.val[k]
+  nlb : pre.nlb = d0.lb.cnt
+  nub : pre.nub = d0.ub.cnt
+
+theorem applied_init (d0 : Data K n p m) (pre : Precond K n p m)
+    (hc : pre.c = 1) (hx : ∀ i : Fin n, pre.dx[i] = 1) (hy : ∀ i : Fin p, pre.dy[i] = 1) (hz : ∀ i : Fin m, pre.dz[i] = 1)
+    (hl : ∀ i : Fin n, pre.dlb[i] = 1) (hu : ∀ i : Fin n, pre.dub[i] = 1) : Applied d0 d0 pre := by
+  refine ⟨?_, ?_, ?_, ?_, rfl, rfl, ?_, rfl, rfl, ?_⟩
+  · intro i j _; rw [hc, hx, hx]; ring
+  · intro k; rw [hc, hx]; ring
+  · intro i j; rw [hx, hy]; ring
+  · intro i j; rw [hx, hz]; ring
+  · intro j _; rw [hl, hx]; ring
+  · intro j _; rw [hu, hx]; ring
+
+theorem scaled_of_loop (d0 : Data K n p m) (st : RuizState K n p m) (hA : Applied d0 st.d st.pre)
+    (hb : st.d.b = d0.b) (hh : st.d.h = d0.h) (hlv : st.d.lb.val = d0.lb.val) (huv : st.d.ub.val = d0.ub.val)
+    (hnl : st.pre.nlb = d0.lb.cnt) (hnu : st.pre.nub = d0.ub.cnt)
+    (ci : K) (xi : Vec K n) (yi : Vec K p) (zi : Vec K m) (li ui : Vec K n) :
+    Scaled d0
+      { st.d with b := Vector.ofFn fun k => st.d.b[k] * st.pre.dy[k],
+                  h := Vector.ofFn fun k => st.d.h[k] * st.pre.dz[k],
+                  lb := { st.d.lb with val := headMap st.d.lb.cnt st.d.lb.val fun k => st.d.lb.val[k] * st.pre.dlb[k] },
+                  ub := { st.d.ub with val := headMap st.d.ub.cnt st.d.ub.val fun k => st.d.ub.val[k] * st.pre.dub[k] } }
+      { st.pre with cInv := ci, dxInv := xi, dyInv := yi, dzInv := zi, dlbInv := li, dubInv := ui } := by
+  refine ⟨⟨hA.P, hA.c, hA.AT, hA.GT, hA.lbcnt, hA.lbidx, hA.lbsc, hA.ubcnt, hA.ubidx, hA.ubsc⟩, ?_, ?_, ?_, ?_, hnl, hnu⟩
+  · intro k; simp only [ofFn_get, hb]
+  · intro k; simp only [ofFn_get, hh]
+  · intro k; simp only [headMap_get, hA.lbcnt, hlv]
+  · intro k; simp only [headMap_get, hA.ubcnt, huv]
+
+/-- **C15, scaling is a change of variables.** For both Ruiz variants, with or without reuse of the previous scaling,
+    for every iteration budget, `sqrt`, constants and cost-scaling flag: the data `scale_data` leaves behind are the
+    data it was given transformed by the scalings it reports. -/
+theorem scaleData_scaled (kind : PrecKind) (hk : kind ≠ .identity) (sqrtF : K → K) (cs : Consts K)
+    (d0 : Data K n p m) (pre : Precond K n p m) (reuse scaleCost : Bool) (maxIter : Nat) :
+    Scaled d0 (pre.scaleData kind sqrtF cs d0 reuse scaleCost maxIter).1 (pre.scaleData kind sqrtF cs d0 reuse scaleCost maxIter).2 := by
+  cases kind
+  case identity => exact absurd rfl hk
+  all_goals
+    cases reuse
+    · simp only [Precond.scaleData, Bool.not_false, if_true]
+      have h0 := applied_init d0 (n := n) (p := p) (m := m)
+      refine scaled_of_loop d0 _ (ruizLoop_applied _ sqrtF cs scaleCost d0 maxIter _
+        (applied_init d0 _ rfl (fun i => vecConst_get 1 i) (fun i => vecConst_get 1 i) (fun i => vecConst_get 1 i)
+          (fun i => vecConst_get 1 i) (fun i => vecConst_get 1 i))) ?_ ?_ ?_ ?_ ?_ ?_ _ _ _ _ _ _
+      · exact (ruizLoop_frame _ sqrtF cs scaleCost maxIter _).1
+      · exact (ruizLoop_frame _ sqrtF cs scaleCost maxIter _).2.1
+      · exact (ruizLoop_frame _ sqrtF cs scaleCost maxIter _).2.2.1
+      · exact (ruizLoop_frame _ sqrtF cs scaleCost maxIter _).2.2.2.1
+      · exact (ruizLoop_frame _ sqrtF cs scaleCost maxIter _).2.2.2.2.1
+      · exact (ruizLoop_frame _ sqrtF cs scaleCost maxIter _).2.2.2.2.2
+    · simp only [Precond.scaleData, Bool.not_true, Bool.false_eq_true, if_false]
+      refine ⟨⟨?_, ?_, ?_, ?_, rfl, rfl, ?_, rfl, rfl, ?_⟩, ?_, ?_, ?_, ?_, rfl, rfl⟩
+      · intro i j hij; simp only [scaleP, scaleAll, matOfFn_get, hij, if_true]
+      · intro k; simp only [ofFn_get]; ring
+      · intro i j; simp only [scaleMat, matOfFn_get]
+      · intro i j; simp only [scaleMat, matOfFn_get]
+      · intro j hj; simp only [scaleBoxSc, headMap_get, hj, if_true]
+      · intro j hj; simp only [scaleBoxSc, headMap_get, hj, if_true]
+      · intro k; simp only [ofFn_get]
+      · intro k; simp only [ofFn_get]
+      · intro k; simp only [headMap_get]
+      · intro k; simp only [headMap_get]
+
+/-- every inverse scaling is the inverse, on the full length of every vector (what `scale_data` establishes since the
+    repair of F3/F4) -/
+structure InvFull (pre : Precond K n p m) : Prop where
+  c : pre.c * pre.cInv = 1
+  dx : ∀ i : Fin n, pre.dx[i] * pre.dxInv[i] = 1
+  dy : ∀ i : Fin p, pre.dy[i] * pre.dyInv[i] = 1
+  dz : ∀ i : Fin m, pre.dz[i] * pre.dzInv[i] = 1
+  dlb : ∀ i : Fin n, pre.dlb[i] * pre.dlbInv[i] = 1
+  dub : ∀ i : Fin n, pre.dub[i] * pre.dubInv[i] = 1
+
+theorem InvFull.toCoherent {pre : Precond K n p m} (h : InvFull pre) : InvCoherent pre :=
+  ⟨h.c, h.dx, h.dy, h.dz, fun i _ => h.dlb i, fun i _ => h.dub i⟩
+
+theorem unscaleData_eq (kind : PrecKind) (hk : kind ≠ .identity) (d : Data K n p m) (pre : Precond K n p m) :
+    pre.unscaleData kind d =
+      { d with P := scaleP (scaleAll d.P pre.cInv) pre.dxInv,
+               c := Vector.ofFn fun k => d.c[k] * (pre.cInv * pre.dxInv[k]),
+               AT := scaleMat d.AT pre.dxInv pre.dyInv, GT := scaleMat d.GT pre.dxInv pre.dzInv,
+               b := Vector.ofFn fun k => d.b[k] * pre.dyInv[k],
+               h := Vector.ofFn fun k => d.h[k] * pre.dzInv[k],
+               lb := { d.lb with sc := scaleBoxSc { d.lb with cnt := pre.nlb } pre.dlbInv pre.dxInv,
+                                 val := headMap pre.nlb d.lb.val fun k => d.lb.val[k] * pre.dlbInv[k] },
+               ub := { d.ub with sc := scaleBoxSc { d.ub with cnt := pre.nub } pre.dubInv pre.dxInv,
+                                 val := headMap pre.nub d.ub.val fun k => d.ub.val[k] * pre.dubInv[k] } } := by
+  cases kind
+  · rfl
+  · rfl
+  · exact absurd rfl hk
+
+/-- **C15, round trip on the data.** If `d` is `d0` scaled by `pre` and the inverses are coherent, `unscale_data`
+    gives back `d0`: stored triangle of `P`, `c`, `A`, `G`, `b`, `h`, and the active head of the box scalings and values. -/
+theorem unscaleData_of_scaled (kind : PrecKind) (hk : kind ≠ .identity) (d0 d : Data K n p m) (pre : Precond K n p m)
+    (hs : Scaled d0 d pre) (hi : InvFull pre) :
+    let u := pre.unscaleData kind d
+    (∀ i j : Fin n, i.val ≤ j.val → u.P[i][j] = d0.P[i][j]) ∧ (∀ k : Fin n, u.c[k] = d0.c[k]) ∧
+    (∀ (i : Fin n) (j : Fin p), u.AT[i][j] = d0.AT[i][j]) ∧ (∀ (i : Fin n) (j : Fin m), u.GT[i][j] = d0.GT[i][j]) ∧
+    (∀ k : Fin p, u.b[k] = d0.b[k]) ∧ (∀ k : Fin m, u.h[k] = d0.h[k]) ∧
+    (∀ j : Fin n, j.val < d0.lb.cnt → u.lb.sc[j] = d0.lb.sc[j] ∧ u.lb.val[j] = d0.lb.val[j]) ∧
+    (∀ j : Fin n, j.val < d0.ub.cnt → u.ub.sc[j] = d0.ub.sc[j] ∧ u.ub.val[j] = d0.ub.val[j]) ∧
+    u.lb.cnt = d0.lb.cnt ∧ u.lb.idx = d0.lb.idx ∧ u.ub.cnt = d0.ub.cnt ∧ u.ub.idx = d0.ub.idx := by
+  have hc := hi.c
+  rw [unscaleData_eq kind hk]
+  all_goals
+    refine ⟨?_, ?_, ?_, ?_, ?_, ?_, ?_, ?_, hs.lbcnt, hs.lbidx, hs.ubcnt, hs.ubidx⟩
+    · intro i j hij
+      simp only [scaleP, scaleAll, matOfFn_get, hij, if_true, hs.P i j hij]
+      have h1 := hi.dx i; have h2 := hi.dx j
+      calc d0.P[i][j] * pre.c * pre.dx[i] * pre.dx[j] * pre.cInv * pre.dxInv[i] * pre.dxInv[j]
+          = d0.P[i][j] * (pre.c * pre.cInv) * (pre.dx[i] * pre.dxInv[i]) * (pre.dx[j] * pre.dxInv[j]) := by ring
+        _ = d0.P[i][j] := by rw [hc, h1, h2]; ring
+    · intro k
+      simp only [ofFn_get, hs.c k]
+      have h1 := hi.dx k
+      calc d0.c[k] * pre.c * pre.dx[k] * (pre.cInv * pre.dxInv[k])
+          = d0.c[k] * (pre.c * pre.cInv) * (pre.dx[k] * pre.dxInv[k]) := by ring
+        _ = d0.c[k] := by rw [hc, h1]; ring
+    · intro i j
+      simp only [scaleMat, matOfFn_get, hs.AT i j]
+      have h1 := hi.dx i; have h2 := hi.dy j
+      calc pre.dxInv[i] * (pre.dx[i] * d0.AT[i][j] * pre.dy[j]) * pre.dyInv[j]
+          = d0.AT[i][j] * (pre.dx[i] * pre.dxInv[i]) * (pre.dy[j] * pre.dyInv[j]) := by ring
+        _ = d0.AT[i][j] := by rw [h1, h2]; ring
+    · intro i j
+      simp only [scaleMat, matOfFn_get, hs.GT i j]
+      have h1 := hi.dx i; have h2 := hi.dz j
+      calc pre.dxInv[i] * (pre.dx[i] * d0.GT[i][j] * pre.dz[j]) * pre.dzInv[j]
+          = d0.GT[i][j] * (pre.dx[i] * pre.dxInv[i]) * (pre.dz[j] * pre.dzInv[j]) := by ring
+        _ = d0.GT[i][j] := by rw [h1, h2]; ring
+    · intro k
+      simp only [ofFn_get, hs.b k]
+      have h1 := hi.dy k
+      rw [mul_assoc, h1, mul_one]
+    · intro k
+      simp only [ofFn_get, hs.h k]
+      have h1 := hi.dz k
+      rw [mul_assoc, h1, mul_one]
+    · intro j hj
+      have hj' : j.val < pre.nlb := by rw [hs.nlb]; exact hj
+      constructor
+      · simp only [scaleBoxSc, headMap_get, hj', if_true, hs.lbsc j hj, hs.lbidx]
+        have h1 := hi.dlb j; have h2 := hi.dx (d0.lb.idx[j])
+        calc d0.lb.sc[j] * pre.dlb[j] * pre.dx[d0.lb.idx[j]] * pre.dlbInv[j] * pre.dxInv[d0.lb.idx[j]]
+            = d0.lb.sc[j] * (pre.dlb[j] * pre.dlbInv[j]) * (pre.dx[d0.lb.idx[j]] * pre.dxInv[d0.lb.idx[j]]) := by ring
+          _ = d0.lb.sc[j] := by rw [h1, h2]; ring
+      · simp only [headMap_get, hj', if_true, hs.lbval j, hj]
+        have h1 := hi.dlb j
+        rw [mul_assoc, h1, mul_one]
+    · intro j hj
+      have hj' : j.val < pre.nub := by rw [hs.nub]; exact hj
+      constructor
+      · simp only [scaleBoxSc, headMap_get, hj', if_true, hs.ubsc j hj, hs.ubidx]
+        have h1 := hi.dub j; have h2 := hi.dx (d0.ub.idx[j])
+        calc d0.ub.sc[j] * pre.dub[j] * pre.dx[d0.ub.idx[j]] * pre.dubInv[j] * pre.dxInv[d0.ub.idx[j]]
+            = d0.ub.sc[j] * (pre.dub[j] * pre.dubInv[j]) * (pre.dx[d0.ub.idx[j]] * pre.dxInv[d0.ub.idx[j]]) := by ring
+          _ = d0.ub.sc[j] := by rw [h1, h2]; ring
+      · simp only [headMap_get, hj', if_true, hs.ubval j, hj]
+        have h1 := hi.dub j
+        rw [mul_assoc, h1, mul_one]
+
+section positivity
+variable [IsStrictOrderedRing K]
+
+structure Nonzero (pre : Precond K n p m) : Prop where
+  c : pre.c ≠ 0
+  dx : ∀ i : Fin n, pre.dx[i] ≠ 0
+  dy : ∀ i : Fin p, pre.dy[i] ≠ 0
+  dz : ∀ i : Fin m, pre.dz[i] ≠ 0
+  dlb : ∀ i : Fin n, pre.dlb[i] ≠ 0
+  dub : ∀ i : Fin n, pre.dub[i] ≠ 0
+
+/-- what the theorems need of the constants and of the square root (true of every `sqrt` mode of the harness and of
+    IEEE `sqrt`): positive scaling limits, `sqrt` of a positive number is not zero -/
+structure GoodConsts (cs : Consts K) (sqrtF : K → K) : Prop where
+  minPos : 0 < cs.minScaling
+  maxPos : 0 < cs.maxScaling
+  sqrtNZ : ∀ x : K, 0 < x → sqrtF x ≠ 0
+
+theorem limitScaling_pos (cs : Consts K) (sqrtF : K → K) (hg : GoodConsts cs sqrtF) (v : K) : 0 < limitScaling cs v := by
+  unfold limitScaling
+  split
+  · exact one_pos
+  · split
+    · exact hg.maxPos
+    · rename_i h1 _; exact lt_of_lt_of_le hg.minPos (not_lt.mp h1)
+
+theorem fin_ne_zero (cs : Consts K) (sqrtF : K → K) (hg : GoodConsts cs sqrtF) (v : K) : 1 / sqrtF (limitScaling cs v) ≠ 0 :=
+  one_div_ne_zero (hg.sqrtNZ _ (limitScaling_pos cs sqrtF hg v))
+
+theorem ruizBody_nonzero (kind : PrecKind) (sqrtF : K → K) (cs : Consts K) (hg : GoodConsts cs sqrtF) (scaleCost : Bool)
+    (st : RuizState K n p m) (h : Nonzero st.pre) : Nonzero (ruizBody kind sqrtF cs scaleCost st).pre := by
+  have hf := fin_ne_zero cs sqrtF hg
+  unfold ruizBody
+  cases scaleCost
+  · simp only [Bool.false_eq_true, if_false]
+    refine ⟨h.c, ?_, ?_, ?_, ?_, ?_⟩
+    · intro i; simp only [ofFn_get]; exact mul_ne_zero (h.dx i) (hf _)
+    · intro i; simp only [ofFn_get]; exact mul_ne_zero (h.dy i) (hf _)
+    · intro i; simp only [ofFn_get]; exact mul_ne_zero (h.dz i) (hf _)
+    · intro i; simp only [headMap_get, ofFn_get]; split
+      · exact mul_ne_zero (h.dlb i) (hf _)
+      · exact h.dlb i
+    · intro i; simp only [headMap_get, ofFn_get]; split
+      · exact mul_ne_zero (h.dub i) (hf _)
+      · exact h.dub i
+  · simp only [if_true]
+    refine ⟨?_, ?_, ?_, ?_, ?_, ?_⟩
+    · exact mul_ne_zero h.c (one_div_ne_zero (ne_of_gt (limitScaling_pos cs sqrtF hg _)))
+    · intro i; simp only [ofFn_get]; exact mul_ne_zero (h.dx i) (hf _)
+    · intro i; simp only [ofFn_get]; exact mul_ne_zero (h.dy i) (hf _)
+    · intro i; simp only [ofFn_get]; exact mul_ne_zero (h.dz i) (hf _)
+    · intro i; simp only [headMap_get, ofFn_get]; split
+      · exact mul_ne_zero (h.dlb i) (hf _)
+      · exact h.dlb i
+    · intro i; simp only [headMap_get, ofFn_get]; split
+      · exact mul_ne_zero (h.dub i) (hf _)
+      · exact h.dub i
+
+theorem ruizLoop_nonzero (kind : PrecKind) (sqrtF : K → K) (cs : Consts K) (hg : GoodConsts cs sqrtF) (scaleCost : Bool) :
+    ∀ (fuel : Nat) (st : RuizState K n p m), Nonzero st.pre → Nonzero (ruizLoop kind sqrtF cs scaleCost fuel st).pre := by
+  intro fuel
+  induction fuel with
+  | zero => intro st h; exact h
+  | succ fuel ih =>
+    intro st h
+    simp only [ruizLoop]
+    split
+    · exact ih _ (ruizBody_nonzero kind sqrtF cs hg scaleCost st h)
+    · exact h
+
+theorem nonzero_init (pre : Precond K n p m)
+    (hc : pre.c = 1) (hx : ∀ i : Fin n, pre.dx[i] = 1) (hy : ∀ i : Fin p, pre.dy[i] = 1) (hz : ∀ i : Fin m, pre.dz[i] = 1)
+    (hl : ∀ i : Fin n, pre.dlb[i] = 1) (hu : ∀ i : Fin n, pre.dub[i] = 1) : Nonzero pre :=
+  ⟨by rw [hc]; exact one_ne_zero, fun i => by rw [hx]; exact one_ne_zero, fun i => by rw [hy]; exact one_ne_zero,
+   fun i => by rw [hz]; exact one_ne_zero, fun i => by rw [hl]; exact one_ne_zero, fun i => by rw [hu]; exact one_ne_zero⟩
+
+theorem invFull_of_nonzero (pr : Precond K n p m) (nz : Nonzero pr) :
+    InvFull { pr with cInv := 1 / pr.c, dxInv := Vector.ofFn fun k => 1 / pr.dx[k], dyInv := Vector.ofFn fun k => 1 / pr.dy[k],
+                      dzInv := Vector.ofFn fun k => 1 / pr.dz[k], dlbInv := Vector.ofFn fun k => 1 / pr.dlb[k],
+                      dubInv := Vector.ofFn fun k => 1 / pr.dub[k] } := by
+  refine ⟨?_, ?_, ?_, ?_, ?_, ?_⟩
+  · exact mul_one_div_cancel nz.c
+  · intro i; simp only [ofFn_get]; exact mul_one_div_cancel (nz.dx i)
+  · intro i; simp only [ofFn_get]; exact mul_one_div_cancel (nz.dy i)
+  · intro i; simp only [ofFn_get]; exact mul_one_div_cancel (nz.dz i)
+  · intro i; simp only [ofFn_get]; exact mul_one_div_cancel (nz.dlb i)
+  · intro i; simp only [ofFn_get]; exact mul_one_div_cancel (nz.dub i)
+
+/-- after `scale_data` the inverse vectors are inverses on their full length: unconditionally for a fresh scaling,
+    and preserved by a reused one -/
+theorem scaleData_invFull (kind : PrecKind) (hk : kind ≠ .identity) (sqrtF : K → K) (cs : Consts K) (hg : GoodConsts cs sqrtF)
+    (d0 : Data K n p m) (pre : Precond K n p m) (reuse scaleCost : Bool) (maxIter : Nat)
+    (h : reuse = true → InvFull pre) :
+    InvFull (pre.scaleData kind sqrtF cs d0 reuse scaleCost maxIter).2 := by
+  cases kind
+  case identity => exact absurd rfl hk
+  all_goals
+    cases reuse
+    · simp only [Precond.scaleData, Bool.not_false, if_true]
+      exact invFull_of_nonzero _ (ruizLoop_nonzero _ sqrtF cs hg scaleCost maxIter _
+        (nonzero_init _ rfl (fun i => vecConst_get 1 i) (fun i => vecConst_get 1 i) (fun i => vecConst_get 1 i)
+          (fun i => vecConst_get 1 i) (fun i => vecConst_get 1 i)))
+    · simp only [Precond.scaleData, Bool.not_true, Bool.false_eq_true, if_false]
+      have hh := h rfl
+      exact ⟨hh.c, hh.dx, hh.dy, hh.dz, hh.dlb, hh.dub⟩
+
+/-- **C15, composite.** `unscale_data ∘ scale_data` is the identity on the problem data, for both Ruiz variants, every
+    iteration budget, cost scaling on or off, fresh or (coherently) reused scaling. -/
+theorem unscale_scale_data (kind : PrecKind) (hk : kind ≠ .identity) (sqrtF : K → K) (cs : Consts K) (hg : GoodConsts cs sqrtF)
+    (d0 : Data K n p m) (pre : Precond K n p m) (reuse scaleCost : Bool) (maxIter : Nat)
+    (h : reuse = true → InvFull pre) :
+    let r := pre.scaleData kind sqrtF cs d0 reuse scaleCost maxIter
+    let u := r.2.unscaleData kind r.1
+    (∀ i j : Fin n, i.val ≤ j.val → u.P[i][j] = d0.P[i][j]) ∧ (∀ k : Fin n, u.c[k] = d0.c[k]) ∧
+    (∀ (i : Fin n) (j : Fin p), u.AT[i][j] = d0.AT[i][j]) ∧ (∀ (i : Fin n) (j : Fin m), u.GT[i][j] = d0.GT[i][j]) ∧
+    (∀ k : Fin p, u.b[k] = d0.b[k]) ∧ (∀ k : Fin m, u.h[k] = d0.h[k]) ∧
+    (∀ j : Fin n, j.val < d0.lb.cnt → u.lb.sc[j] = d0.lb.sc[j] ∧ u.lb.val[j] = d0.lb.val[j]) ∧
+    (∀ j : Fin n, j.val < d0.ub.cnt → u.ub.sc[j] = d0.ub.sc[j] ∧ u.ub.val[j] = d0.ub.val[j]) ∧
+    u.lb.cnt = d0.lb.cnt ∧ u.lb.idx = d0.lb.idx ∧ u.ub.cnt = d0.ub.cnt ∧ u.ub.idx = d0.ub.idx :=
+  unscaleData_of_scaled kind hk d0 _ _ (scaleData_scaled kind hk sqrtF cs d0 pre reuse scaleCost maxIter)
+    (scaleData_invFull kind hk sqrtF cs hg d0 pre reuse scaleCost maxIter h)
+end positivity
+
+/-- non-vacuity of `GoodConsts`: the constants of the implementation with the identity as `sqrt` stand-in on ℚ -/
+example : GoodConsts (K := ℚ)
+    { minScaling := 1/10000, maxScaling := 10000, ruizEps := 1/1000, piqpInf := 10^30, posInf := 10^40, machEps := 1/2^52,
+      c0_95 := 95/100, c0_666 := 666/1000, c1e12 := 10^12, c1e2 := 100, c1_5 := 3/2, c0_5 := 1/2, c0_1 := 1/10, c1e_4 := 1/10000,
+      c100 := 100, c10 := 10 } (fun x => x) :=
+  ⟨by norm_num, by norm_num, fun x hx => ne_of_gt hx⟩
 
 end Piqp.C15
